@@ -202,7 +202,7 @@ func checkC07(c *CheckCtx) error {
 		return err
 	}
 	if err := c.randomClean(c.pick(80, 1500), "a", allCleanModes,
-		cleanGenOpts{maxTests: 4, maxCalls: 4, change: 0.3, drop: 0.3, add: 0.3, staleProb: 0.6, decoyProb: 0.5, sortProb: 0.5, againProb: 0.2, counts: true}); err != nil {
+		cleanGenOpts{maxTests: 4, maxCalls: 4, change: 0.3, drop: 0.3, add: 0.3, staleProb: 0.6, decoyProb: 0.5, sortProb: 0.5, againProb: 0.2, counts: true, moveProb: 0.2, oddDirs: true}); err != nil {
 		return err
 	}
 	return c.repro(reproK5())
@@ -218,7 +218,7 @@ func checkC09(c *CheckCtx) error {
 		return err
 	}
 	if err := c.randomClean(c.pick(100, 1500), "b", allCleanModes,
-		cleanGenOpts{maxTests: 3, maxCalls: 4, change: 0.2, drop: 0.5, add: 0.2, staleProb: 0.9, decoyProb: 0.9, sortProb: 0.5, againProb: 0.2, counts: true}); err != nil {
+		cleanGenOpts{maxTests: 3, maxCalls: 4, change: 0.2, drop: 0.5, add: 0.2, staleProb: 0.9, decoyProb: 0.9, sortProb: 0.5, againProb: 0.2, counts: true, moveProb: 0.3, oddDirs: true}); err != nil {
 		return err
 	}
 	return c.repro(reproK6(false), reproK6(true))
